@@ -269,7 +269,9 @@ class Exporter:
             last_row = rows[len(rows) - 1]
             spine_count = len(last_row)
             merge_tokens_count = sum(1 for column in last_row if column == '*^')
-            join_tokens_count = sum(1 for column in last_row if column == '*v')
+            # a group of k adjacent '*v' joins k spines into one: it removes k - 1 of them
+            join_tokens_count = sum(1 for i, column in enumerate(last_row)
+                                    if column == '*v' and i > 0 and last_row[i - 1] == '*v')
             next_row_spine_count = spine_count + merge_tokens_count - join_tokens_count
 
             row = []
